@@ -166,7 +166,13 @@ func (s *PfcpServer) handleSessionModificationRequest(
 			return
 		}
 		s.log.Debugf("new remote nodeid: %v\n", rnodeid)
-		s.UpdateNodeID(sess.rnode, rnodeid)
+		if other, ok := s.rnodes[rnodeid]; ok && other != sess.rnode {
+			// the new SMF has a PFCP association of its own: the session moves to
+			// it (re-keying this session's node would displace that association)
+			sess.rnode.MoveSess(sess, other)
+		} else {
+			s.UpdateNodeID(sess.rnode, rnodeid)
+		}
 	}
 
 	for _, i := range req.CreateFAR {
